@@ -38,6 +38,8 @@ def register():
     REGISTRY["C01"] = (p_frame.run_c01, "proof")
     REGISTRY["C02"] = (p_frame.run_c02, "proof")
     REGISTRY["C03"] = (p_frame.run_c03, "proof")
+    import p_c08
+    REGISTRY["C08"] = (p_c08.run_c08, "model_checking")
     import p_signtype
     REGISTRY["C19"] = (p_signtype.run_c19, "proof")
 
@@ -49,9 +51,11 @@ def main():
     ap.add_argument("--repo", default=None)
     a = ap.parse_args()
     register()
-    if a.pid not in REGISTRY:
-        print("unknown property %s" % a.pid)
-        return 2
+    pids = a.pid.split(",")
+    for p_ in pids:
+        if p_ not in REGISTRY:
+            print("unknown property %s" % p_)
+            return 2
     if a.repo:
         facts.REPO = a.repo
     try:
@@ -61,17 +65,25 @@ def main():
         print(str(e)[-3000:])
         return 2
     prog = facts.Program(d)
-    fn, level = REGISTRY[a.pid]
-    chk = Check(a.pid, a.tier, level)
-    chk.extra["facts_key"] = key
-    try:
-        fn(chk, prog)
-    except Unsupported as e:
-        chk.unproven("engine", "unsupported:%s" % str(e)[:80], "analysis could not be completed: %s" % e)
-    except Exception as e:  # fail closed, but say it is the checker
-        traceback.print_exc()
-        chk.unproven("engine", "crash:%s" % type(e).__name__, "checker crashed: %r" % (e,))
-    return chk.finish()
+    rc = 0
+    for pid in pids:
+        fn, level = REGISTRY[pid]
+        chk = Check(pid, a.tier, level)
+        chk.extra["facts_key"] = key
+        try:
+            fn(chk, prog)
+            if a.tier == "thorough":
+                import thorough
+                thorough.run(chk, prog, pid)
+        except Unsupported as e:
+            chk.unproven("engine", "unsupported:%s" % str(e)[:80], "analysis could not be completed: %s" % e)
+        except Exception as e:  # fail closed, but say it is the checker
+            traceback.print_exc()
+            chk.unproven("engine", "crash:%s" % type(e).__name__, "checker crashed: %r" % (e,))
+        r = chk.finish()
+        if r == 1 or (r != 0 and rc == 0):
+            rc = r
+    return rc
 
 
 if __name__ == "__main__":
